@@ -440,6 +440,66 @@ def rule_i_per_bin_factor_is_the_efficiency(ctx, fns):
     return n
 
 
+def rule_j_failed_setup_is_not_set_up(ctx, fns):
+    """check() lets apply/undo run once the object counts as set up.  The base class set_up() sets that flag and replaces the stored
+    geometry by its argument.  A derived set_up() that can still FAIL afterwards must not leave the object usable, and must not compare
+    the stored geometry with the argument after the base class has made them the same object:
+      * on every path from the base-class set_up call to a `return Succeeded::no` the set-up flag is cleared again;
+      * no comparison of `*this->proj_data_info_sptr` with the parameter it was just assigned from."""
+    RULE = "C13.j-failed-setup-is-not-set-up"
+    base = [g for g in fns if g.qn == "stir::BinNormalisation::set_up" and g.body is not None]
+    if not base:
+        ctx.unrec("stir::BinNormalisation::set_up", "base class set_up not found")
+        return 0
+    sets_flag = any(m.k == "BinaryOperator" and m.op == "=" and key(m.c[0].strip()) == "this._already_set_up" and key(m.c[1].strip()) == "true" for m in base[0].walk())
+    stores = {}  # member -> index of the parameter it is assigned from
+    for m in base[0].walk():
+        if m.k in ("BinaryOperator", "CXXOperatorCallExpr") and m.op == "=" and len(m.c) >= 2:
+            lhs, rhs = m.c[-2].strip(), m.c[-1].strip()
+            if lhs.k == "MemberExpr" and rhs.k == "DeclRefExpr" and rhs.get("dk") == "param":
+                for i, p in enumerate(base[0].params):
+                    if p["d"] == rhs.get("d"):
+                        stores[lhs.get("n")] = i
+    n = 0
+    seen = set()
+    for f in fns:
+        if f.short != "set_up" or f.body is None or not f.cfg_raw or f.qn == base[0].qn or (f.file, f.body.line) in seen or f.is_const:
+            continue
+        bc = [c for c in f.calls() if c.callee == base[0].qn]
+        if not bc:
+            continue
+        seen.add((f.file, f.body.line))
+        cfg = CFG(f)
+        fails = [r for r in f.walk() if r.k == "ReturnStmt" and "Succeeded::no" in key(r) and r.i in cfg.pos]
+        # returns that only hand the base class's own failure on are not failures AFTER a successful base set_up
+        fails = [r for r in fails if not any(a.k == "IfStmt" and a.c and any(x.i == bc[0].i for x in a.c[0].walk()) for a in r.ancestors())]
+        # a failure handed on from a MEMBER's set_up is that member's business: its own apply()/undo() refuse to run (this clause
+        # applied to the member's class)
+        fails = [r for r in fails if not any(a.k == "IfStmt" and a.c and any(x.k == "CXXMemberCallExpr" and (x.callee or "").endswith("::set_up") and x.c and x.c[0].strip().k != "CXXThisExpr" and key(x.c[0].strip()).lstrip("*").startswith("this.") for x in a.c[0].walk()) for a in r.ancestors())]
+        clears = {m.i for m in f.walk() if m.k == "BinaryOperator" and m.op == "=" and key(m.c[0].strip()) == "this._already_set_up" and key(m.c[1].strip()) == "false"}
+        later = [r for r in fails if cfg.paths_avoiding([cfg.pos[bc[0].i]], lambda x: False, target_pred=lambda x, ri=r.i: x.i == ri, to_exit=False) is not None] if bc[0].i in cfg.pos else fails
+        bad = []
+        for r in later:
+            # is there a path from the base call to this return that avoids every clearing of the flag?
+            w = cfg.paths_avoiding([cfg.pos[bc[0].i]], lambda x: x.i in clears, target_pred=lambda x, ri=r.i: x.i == ri, to_exit=False)
+            if w is not None:
+                bad.append(r)
+        ok = not (sets_flag and bad)
+        ctx.ob(RULE, f.qn, "failure-after-base-set_up", ok, (bad[0] if bad else f).where(), ("no failure exit is reachable after the base class set_up()" if not later else "every failure exit after the base class set_up() clears the set-up flag again") if ok else "set_up() can return Succeeded::no after the base class has marked the object as set up: apply()/undo() then pass check() and run on data the object has just rejected")
+        n += 1
+        # self comparison through the base class's store
+        for m in f.walk():
+            if m.k in ("BinaryOperator", "CXXOperatorCallExpr") and m.op in ("==", "!=") and len(m.c) >= 2 and m.i in cfg.pos and bc[0].i in cfg.pos:
+                a, b = key(m.c[-2].strip()), key(m.c[-1].strip())
+                for mem, j in stores.items():
+                    if j < len(bc[0].call_args()):
+                        pk = key(bc[0].call_args()[j].strip())
+                        if {a, b} == {"*this." + mem, "*" + pk} and cfg.dominates(bc[0], m):
+                            ctx.ob(RULE, f.qn, "comparison@%d" % m.line, False, m.where(), "`%s` is compared with `%s` after the base class set_up() has assigned the one from the other: the test compares an object with itself and can never fail" % (a, b))
+                            n += 1
+    return n
+
+
 def run(ctx):
     ctx.explanation = (
         "Decides, for every BinNormalisation class compiled in this build: (a) apply and undo are duals - the argument is modified the "
@@ -470,6 +530,8 @@ def run(ctx):
     if eu is not None:
         rule_h_whole_data_once(ctx, fns, eu.functions)
         ctx.require_count("C13.h-whole-data-each-viewgram-once", 7)
+    rule_j_failed_setup_is_not_set_up(ctx, fns)
+    ctx.require_count("C13.j-failed-setup-is-not-set-up", 4)
     rule_f_no_hidden_state(ctx, fns)
     ctx.require_count("C13.f-no-hidden-state", 25)
     ctx.require_count("C13.a-apply-undo-dual", 10)
